@@ -66,11 +66,33 @@ def bracketify(rng, name):
     return name[:i] + cls + name[i + 1:]
 
 
+def braceify(rng, name):
+    """GLOB_BRACE alternatives around (part of) a name; also the forms glob leaves alone: no comma, no closing brace"""
+    other = rng.choice(["a", "b", "ab", "zz", "*", "a?", ""])
+    r = rng.random()
+    if r < 0.35:
+        alts = [name, other]
+        rng.shuffle(alts)
+        return "{" + ",".join(alts) + "}"
+    if r < 0.55 and name:
+        i = rng.randrange(len(name) + 1)
+        return name[:i] + "{" + name[i:] + "," + other + "}"
+    if r < 0.7:
+        return "{" + other + ",{" + name + ",b}}"
+    if r < 0.8:
+        return "{" + name + "}"            # no comma: literal
+    if r < 0.9:
+        return "{" + name + "," + other    # unterminated: literal
+    return "{" + name + "," + other + "," + name + "}"     # the same alternative twice
+
+
 def wildify(rng, name):
     r = rng.random()
-    if r < 0.25:
+    if r < 0.22:
         return name
-    if r < 0.40:
+    if r < 0.32:
+        return braceify(rng, name)
+    if r < 0.44:
         return bracketify(rng, name)
     if r < 0.5:
         return "*"
